@@ -54,6 +54,19 @@ function canon_error(e) {
 }
 
 function make_stream(bufs, mode) {
+    if (mode == 'timed') {
+        // one chunk per event-loop iteration, written while the consumer is already reading
+        const {PassThrough} = require('stream');
+        const s = new PassThrough();
+        (async () => {
+            for (const b of bufs) {
+                s.write(b);
+                await new Promise((resolve) => setImmediate(resolve));
+            }
+            s.end();
+        })();
+        return s;
+    }
     if (mode == 'from') return Readable.from(bufs, {objectMode: false});
     if (mode == 'obj') return Readable.from(bufs);
     const s = new Readable({read() {}});
@@ -74,7 +87,20 @@ async function observe_inner(stream, csv_path, c) {
         const it = new rbql_csv.CSVRecordIterator(stream, csv_path, c.encoding, c.delim, c.policy, c.header, c.comment);
         if (c.modifier !== null && c.modifier !== undefined) it.handle_query_modifier(c.modifier ? 'header' : 'noheader');
         const header = await it.get_header();
-        const recs = await it.get_all_records();
+        let recs;
+        if (c.slow) {
+            // a consumer that does asynchronous work between records: a backlog builds up in the reader's queue while chunks keep arriving
+            recs = [];
+            while (true) {
+                const r = await it.get_record();
+                if (r === null) break;
+                recs.push(r);
+                await new Promise((resolve) => setImmediate(resolve));
+                if (c.slow > 1) await new Promise((resolve) => setImmediate(resolve));
+            }
+        } else {
+            recs = await it.get_all_records();
+        }
         const ws = it.get_warnings();
         return ['ok', recs, header, canon_warnings(ws), it.NL, it.NR];
     } catch (e) {
